@@ -1461,3 +1461,35 @@ theorem C19.transform_system_snap_fails :
   · norm_num [V2.normalize, V2.normSq, V2.dot, V2.smul, M2.one, M2.mulVec]
   · norm_num [tsMatrix2, tsSnaps2, closeTo, absK, rotFromToCode2, rotFromTo2, perp2, V2.normalize,
       V2.normSq, V2.dot, V2.smul]
+
+/-- `axis_rotation(axis, angle, vectors, axis_shift)` (public helper; Rodrigues about a shifted
+axis) is a rigid motion that fixes every point of the line `axis_shift + t·axis`, keeps the
+component along the axis, and preserves all distances — for every unit axis, angle, shift. -/
+theorem C19.axis_rotation_rigid {K : Type} [CommRing K] (a : V3 K) (c s : K)
+    (hc : c * c + s * s = 1) (ha : a.normSq = 1) (sh : V3 K) :
+    (∀ t : K, axisRotation a c s (V3.add sh (V3.smul t a)) sh = V3.add sh (V3.smul t a)) ∧
+    (∀ v : V3 K, V3.dot a (axisRotation a c s v sh) = V3.dot a v) ∧
+    (∀ v w : V3 K, (V3.sub (axisRotation a c s v sh) (axisRotation a c s w sh)).normSq
+      = (V3.sub v w).normSq) := by
+  obtain ⟨x, y, z⟩ := a
+  obtain ⟨p, q, r⟩ := sh
+  simp only [V3.normSq, V3.dot] at ha
+  refine ⟨?_, ?_, ?_⟩
+  · intro t
+    ext <;> simp only [axisRotation, axisRot, M3.mulVec, V3.add, V3.sub, V3.smul, V3.dot] <;> grind
+  · intro v
+    obtain ⟨v1, v2, v3⟩ := v
+    simp only [axisRotation, axisRot, M3.mulVec, V3.add, V3.sub, V3.smul, V3.dot]
+    grind
+  · intro v w
+    have hR := (C19.rot_orthonormal_axis (⟨x, y, z⟩ : V3 K) c s hc (by simpa [V3.normSq, V3.dot] using ha)).1
+    have e : V3.sub (axisRotation ⟨x, y, z⟩ c s v ⟨p, q, r⟩) (axisRotation ⟨x, y, z⟩ c s w ⟨p, q, r⟩)
+        = (axisRot ⟨x, y, z⟩ c s).mulVec (V3.sub v w) := by
+      obtain ⟨v1, v2, v3⟩ := v
+      obtain ⟨w1, w2, w3⟩ := w
+      ext <;> simp only [axisRotation, M3.mulVec, V3.add, V3.sub, V3.smul, V3.dot] <;> ring
+    rw [e, M3.normSq_mulVec _ hR]
+
+example : axisRotation (⟨0, 0, 1⟩ : V3 ℚ) 0 1 ⟨1, 2, 0⟩ ⟨-1, 0, 0⟩ = ⟨-3, 2, 0⟩ := by
+  simp [axisRotation, axisRot, M3.mulVec, V3.add, V3.sub, V3.smul, V3.dot]
+  norm_num
